@@ -16,6 +16,7 @@ import PgProofs.EvoPermP
 import PgProofs.EvoOrderPerm
 import PgProofs.EvoPmxPerm
 import PgProofs.EvoCyclePerm
+import PgProofs.EvoCycleTotal
 import PgProofs.EvoLaws
 import PgProofs.EvoFuel
 import PgProofs.EvoDetPrims
@@ -245,6 +246,12 @@ map, and cycles that are assigned never overlap). -/
 theorem C14_cycle_children_are_permutations (vx vy : List Nat) (hn : vx.Nodup) (hp : vy.Perm vx)
     (st : St) (c0 c1 : List Nat) (st' : St) (h : permuteCycle vx vy st = .ok ((c0, c1), st')) :
     c0.Perm vx ∧ c1.Perm vx := permuteCycle_perm hn hp st c0 c1 st' h
+
+/-- … and the Cycle crossover is total on such parents: every cycle closes within `size` steps
+(pigeonhole on the injective cycle map) and every position gets a side, so it never raises KeyError;
+with well-formed draws it always returns two arrangements of the items. -/
+theorem C14_cycle_total (vx vy : List Nat) (hn : vx.Nodup) (hp : vy.Perm vx) (st : St) :
+    permuteCycle vx vy st ≠ .error .key := permuteCycle_total hn hp st
 
 /-! ## Numeric recombinators `Average` / `WeightedAverage` (exact rationals) -/
 
